@@ -44,6 +44,8 @@ type Box[T any] struct{ V T }
 var chI = make(chan int)
 var fnI = func() int { return 7 }
 var sbI = &strings.Builder{}
+var fn2I = func(a, b int) (s string, err error) { return "", nil }
+var mapNI = map[string][]*Node{"k": {ndI}}
 var ndI = &Node{ID: 7}
 `
 
@@ -62,6 +64,11 @@ var zoo = []zooType{
 	{"sub.Num", "sub.Num(9)", nil, []string{"any", "fmt.Stringer"}},
 	{"[]sub.Pair", "[]sub.Pair{{A: 1, B: 2}}", []string{"sub.Pairs"}, []string{"any"}},
 	{"*strings.Builder", "sbI", nil, []string{"any", "io.Writer"}},
+	// type strings with characters that are special to text templating / HTML escaping: < > & " '
+	{"<-chan int", "(<-chan int)(chI)", nil, []string{"any"}},
+	{"struct{ K string \x60json:\"k\"\x60 }", "struct{ K string \x60json:\"k\"\x60 }{K: \"v\"}", nil, []string{"any"}},
+	{"func(a, b int) (s string, err error)", "fn2I", nil, []string{"any"}},
+	{"map[string][]*Node", "mapNI", nil, []string{"any"}},
 }
 
 const c06Runtime = `
